@@ -23,7 +23,8 @@ from lib.engine import R, V, custom_part, enum_part, machine_part
 ID = 'C02'
 RULE = ('pool of (model function, query, culture, options, reference) tuples: a seeded sample of supported Specs inputs over all recognisers and '
         'cultures plus generated families that exercise Decimal arithmetic (fractions, long decimals), related queries sharing a sub-expression '
-        '(the same date with and without before/after/since, the same IP/number at different offsets), es-es/es-mx decimal unit amounts; '
+        '(the same date with and without before/after/since, the same IP/number at different offsets), es-es/es-mx decimal unit amounts, '
+        'date-time options (skip-from-to, split, both, calendar) x every date-time culture x calendar-mode phrases and sampled spec inputs; '
         'histories = Hypothesis rule-based machine over {helper call, call through a long-lived recogniser, threaded batch of 2-8 threads, '
         'cache clear, permuted repetition}; non-trivial = history in which a tuple with a non-empty reference answer is evaluated under two '
         'different conditions (main vs worker thread, warm vs cleared cache, two positions); distinct = distinct history (rule trace)')
@@ -131,6 +132,30 @@ def build_pool(seed):
     for o in (0, 1, 2, 4):
         add('datetime', 'from 4pm to 5pm tomorrow', 'en-us', options=o)
         add('datetime', 'the week', 'en-us', options=o)
+    # ... in every date-time culture: the phrases the calendar / split / extended modes exist for, and a seeded sample of the culture's own
+    # spec inputs under each option (a model built for one option value is cached separately; state kept inside it must not show)
+    calendar_phrases = {
+        'en-us': ['Hey, we got a partner of the month.', 'Hey, we got a partner of the week.', 'Nice day.', "I'm blocked for the day", 'Have a great week!',
+                  'schedule me a 1:1 meeting', 'Schedule a meeting before 4', 'I will leave tomorrow three'],
+        'nl-nl': ['partner van de week', 'werknemer van de maand', 'dit is de dag', 'fijne dag', 'morgen om 3'],
+        'es-es': ['el empleado del mes', 'socio de la semana', 'buen día', 'mañana a las 3'],
+        'fr-fr': ['employé du mois', 'partenaire de la semaine', 'bonne journée', 'demain à 3'],
+        'pt-br': ['funcionário do mês', 'parceiro da semana', 'bom dia', 'amanhã às 3'],
+        'de-de': ['mitarbeiter des monats', 'partner der woche', 'schönen tag', 'morgen um 3'],
+        'it-it': ['impiegato del mese', 'partner della settimana', 'buona giornata', 'domani alle 3'],
+        'zh-cn': ['本月最佳员工', '本周合作伙伴', '明天3点', '祝你有美好的一天'],
+    }
+    dt_es = [e for e in corpus.entries() if e['file'] == 'DateTimeModel.json']
+    for c, phrases in calendar_phrases.items():
+        own = [e for e in dt_es if e['culture'] == c and len(e['input']) < 80]
+        picked = [own[(i * 7919 + seed * 104729) % len(own)] for i in range(3)] if own else []
+        for o in (1, 2, 3, 4):     # the recogniser rejects option values above CALENDAR
+            for q in phrases:
+                add('datetime', q, c, options=o)
+            for e in picked:
+                add('datetime', e['input'], c, ref=e['ref'], options=o)
+        for q in phrases:
+            add('datetime', q, c)
     return pool
 
 
